@@ -65,6 +65,55 @@ func LiteralFamily(ctx *core.Ctx) {
 			cases = append(cases, cs)
 		}
 	}
+	// F7b: the same primitive literals supplied through a globals FILE
+	// (soy.ParseGlobals / AddGlobalsFile): "NAME = literal" lines with blank
+	// lines, // comment lines and padding around them; string values may
+	// contain '=', '//' and '/*' (a comment starts only at the beginning of a line)
+	prims := []core.E{core.EInt(0), core.EInt(-12), sp(core.EInt(255), "0xFF"), core.EFloat(3, 1), core.EFloat(-1, 2), sp(core.EFloat(3000, 0), "3e3"),
+		core.EBool(true), core.EBool(false), core.ENull(), core.EStr(""), core.EStr("plain"), core.EStr("a = b"), core.EStr("http://example.com/home"),
+		core.EStr(" // "), core.EStr("//"), core.EStr("x//y"), core.EStr("/* c */"), core.EStr("it's"), core.EStr("tab\tnl\n"), core.EStr("é日😀"), core.EStr("<b>&"), core.EStr("#"), core.EStr("a;b"),
+		core.EStr("trailing  "), core.EStr("  leading")}
+	for i, lit := range prims {
+		val := litValue(lit)
+		if val == nil {
+			continue
+		}
+		name := fmt.Sprintf("app.G%d", i)
+		src := core.Unparse(lit, core.Style{})
+		for j, text := range []string{
+			name + " = " + src + "\n",
+			"// header comment\n\n" + name + "=" + src + "\n// trailer = 1\n",
+			"OTHER_A = 1\n  " + name + "   =   " + src + "   \nOTHER_B = 'x // y'\n",
+			name + " = " + src, // no final newline
+		} {
+			g := map[string]core.V{name: val}
+			if j == 2 {
+				g["OTHER_A"], g["OTHER_B"] = core.VInt(1), core.VStr("x // y")
+			}
+			for _, v := range []core.E{core.EGlobal(name), core.EBin("add", core.EGlobal(name), core.EStr("|")), core.EBin("eq", core.EGlobal(name), lit), core.EFn("isNonnull", core.EGlobal(name))} {
+				cs := &core.ExprCase{Family: "F7b-globals-file", E: v, Env: &core.Env{Vars: map[string]core.V{}, Glob: g}, Src: core.Unparse(v, core.Style{}), GlobText: text}
+				core.RunExprCase(cs, false)
+				cases = append(cases, cs)
+			}
+		}
+	}
 	Judge(ctx, cases)
 	ctx.Extra["F4_literal_cases"] = len(cases)
+}
+
+// litValue is the value a primitive literal denotes.
+func litValue(e core.E) core.V {
+	switch e["k"] {
+	case "int":
+		return core.VInt(e["v"].(int))
+	case "float":
+		return core.VFloat(e["num"].(int), e["sh"].(int))
+	case "str":
+		return core.VStr(e["v"].(string))
+	case "bool":
+		return core.VBool(e["v"].(bool))
+	case "null":
+		return core.VNull()
+	}
+	return nil
 }
